@@ -20,6 +20,7 @@ import (
 	"runtime"
 	"strings"
 	"sync/atomic"
+	"syscall"
 	"time"
 
 	"github.com/sirupsen/logrus"
@@ -34,12 +35,13 @@ import (
 type node struct {
 	Kind     string  `json:"kind"` // ret | err | panic | goexit | nest
 	ErrID    int     `json:"err_id,omitempty"`
+	ErrKind  string  `json:"err_kind,omitempty"` // concrete type of the returned error ("" = pointer)
 	PV       string  `json:"panic_value,omitempty"`
 	Children []*node `json:"children,omitempty"`
 	Post     string  `json:"post,omitempty"` // inner | panicifinner | ret | err | panic
 	Limit    int     `json:"limit,omitempty"`
 
-	err   *idErr
+	err   error
 	order []int
 }
 
@@ -53,6 +55,79 @@ type caseT struct {
 type idErr struct{ id int }
 
 func (e *idErr) Error() string { return fmt.Sprintf("e%d", e.id) }
+
+// returned errors whose concrete type is not pointer-like
+type valErr struct{ id int }
+
+func (e valErr) Error() string { return fmt.Sprintf("valErr%d", e.id) }
+
+type sliceErr struct { // not comparable with ==
+	id    int
+	parts []string
+}
+
+func (e sliceErr) Error() string { return fmt.Sprintf("sliceErr%d%v", e.id, e.parts) }
+
+type strErr string
+
+func (e strErr) Error() string { return string(e) }
+
+var errKinds = []string{"", "", "struct-value", "errno", "deadline", "ctx-err", "canceled", "uncomparable", "string-type", "wrapped", "joined"}
+
+func makeErr(kind string, id int) error {
+	switch kind {
+	case "struct-value":
+		return valErr{id}
+	case "errno":
+		return syscall.Errno(1000 + id)
+	case "deadline":
+		return context.DeadlineExceeded
+	case "ctx-err":
+		ctx, cancel := context.WithTimeout(context.Background(), time.Nanosecond)
+		defer cancel()
+		<-ctx.Done()
+		return ctx.Err()
+	case "canceled":
+		return context.Canceled
+	case "uncomparable":
+		return sliceErr{id, []string{"a", "b"}}
+	case "string-type":
+		return strErr(fmt.Sprintf("strErr%d", id))
+	case "wrapped":
+		return fmt.Errorf("wrapped %d: %w", id, io.ErrUnexpectedEOF)
+	case "joined":
+		return errors.Join(&idErr{id}, io.EOF)
+	}
+	return &idErr{id}
+}
+
+// the id the model uses for the error value: equal values share an id
+func modelID(kind string, id int) int {
+	switch kind {
+	case "deadline", "ctx-err":
+		return 900001
+	case "canceled":
+		return 900002
+	}
+	return id
+}
+
+// sameErr: the identical error value (== on the interface; identity for pointers, value equality otherwise)
+func sameErr(a, b error) (eq bool) {
+	defer func() {
+		if recover() != nil { // == on an uncomparable dynamic type
+			sa, oka := a.(sliceErr)
+			sb, okb := b.(sliceErr)
+			eq = oka && okb && sa.id == sb.id && fmt.Sprint(sa.parts) == fmt.Sprint(sb.parts)
+		}
+	}()
+	return a == b
+}
+
+type regEntry struct {
+	err error
+	id  int
+}
 
 // ---------- panic values ----------
 type plainStruct struct {
@@ -75,6 +150,19 @@ type ptrErr struct{ msg string }
 
 func (p *ptrErr) Error() string { return p.msg }
 
+type ptrStringer struct{ s string }
+
+func (p *ptrStringer) String() string { return p.s }
+
+type badErrorPtr struct{ m map[int]int }
+
+func (p *badErrorPtr) Error() string { p.m[1] = 1; return "unreachable" } // nil map write: a runtime.Error inside Error()
+
+type badBoth struct{}
+
+func (badBoth) Error() string  { panic("Error of badBoth") }
+func (badBoth) String() string { panic("String of badBoth") }
+
 var zero = 0
 var emptySlice = []int{}
 var nilMap map[int]int
@@ -83,38 +171,42 @@ var anyStr any = "s"
 var minusOne = -1
 
 var triggers = map[string]func(){
-	"nil":            func() { panic(nil) },
-	"error":          func() { panic(errors.New("plain error value")) },
-	"wrapped-error":  func() { panic(fmt.Errorf("wrapped: %w", io.ErrUnexpectedEOF)) },
-	"string":         func() { panic("boom") },
-	"empty-string":   func() { panic("") },
-	"multiline":      func() { panic("line one\nline two\n") },
-	"percent":        func() { panic("100%v %s %d") },
-	"int":            func() { panic(42) },
-	"neg-int64":      func() { panic(int64(-9223372036854775807)) },
-	"float":          func() { panic(3.5) },
-	"bool":           func() { panic(true) },
-	"struct":         func() { panic(plainStruct{1, "x"}) },
-	"ptr-struct":     func() { panic(&plainStruct{7, "p"}) },
-	"slice":          func() { panic([]int{1, 2, 3}) },
-	"map":            func() { panic(map[string]int{"a": 1}) },
-	"stringer":       func() { panic(stringerT{}) },
-	"bad-stringer":   func() { panic(badStringer{}) },
-	"bad-error":      func() { panic(badError{}) },
-	"nil-ptr-error":  func() { var p *ptrErr; panic(error(p)) },
-	"long-string":    func() { panic(strings.Repeat("0123456789abcdef", 20)) },
-	"utf8":           func() { panic("päńíč 日本") },
-	"rt-nil-deref":   func() { _ = nilPtr.A },
-	"rt-index":       func() { _ = emptySlice[zero+3] },
-	"rt-divide":      func() { _ = 1 / zero },
-	"rt-nil-map":     func() { nilMap[1] = 1 },
-	"rt-type-assert": func() { _ = anyStr.(int) },
-	"rt-close-nil":   func() { var ch chan int; close(ch) },
-	"rt-close-twice": func() { ch := make(chan int); close(ch); close(ch) },
-	"rt-neg-make":    func() { _ = make([]int, minusOne) },
-	"rt-slice-range": func() { _ = emptySlice[zero+2 : 1] },
-	"panic-in-defer": func() { defer func() { panic("second panic") }(); panic("first panic") },
-	"repanic":        func() { defer func() { r := recover(); panic(fmt.Sprint("re-panic of ", r)) }(); panic("original") },
+	"nil":                    func() { panic(nil) },
+	"error":                  func() { panic(errors.New("plain error value")) },
+	"wrapped-error":          func() { panic(fmt.Errorf("wrapped: %w", io.ErrUnexpectedEOF)) },
+	"string":                 func() { panic("boom") },
+	"empty-string":           func() { panic("") },
+	"multiline":              func() { panic("line one\nline two\n") },
+	"percent":                func() { panic("100%v %s %d") },
+	"int":                    func() { panic(42) },
+	"neg-int64":              func() { panic(int64(-9223372036854775807)) },
+	"float":                  func() { panic(3.5) },
+	"bool":                   func() { panic(true) },
+	"struct":                 func() { panic(plainStruct{1, "x"}) },
+	"ptr-struct":             func() { panic(&plainStruct{7, "p"}) },
+	"slice":                  func() { panic([]int{1, 2, 3}) },
+	"map":                    func() { panic(map[string]int{"a": 1}) },
+	"stringer":               func() { panic(stringerT{}) },
+	"bad-stringer":           func() { panic(badStringer{}) },
+	"bad-error":              func() { panic(badError{}) },
+	"nil-ptr-error":          func() { var p *ptrErr; panic(error(p)) },
+	"nil-ptr-error-direct":   func() { var p *ptrErr; panic(p) },
+	"nil-ptr-stringer":       func() { var p *ptrStringer; panic(p) },
+	"bad-error-ptr":          func() { panic(&badErrorPtr{}) },
+	"bad-error-and-stringer": func() { panic(badBoth{}) },
+	"long-string":            func() { panic(strings.Repeat("0123456789abcdef", 20)) },
+	"utf8":                   func() { panic("päńíč 日本") },
+	"rt-nil-deref":           func() { _ = nilPtr.A },
+	"rt-index":               func() { _ = emptySlice[zero+3] },
+	"rt-divide":              func() { _ = 1 / zero },
+	"rt-nil-map":             func() { nilMap[1] = 1 },
+	"rt-type-assert":         func() { _ = anyStr.(int) },
+	"rt-close-nil":           func() { var ch chan int; close(ch) },
+	"rt-close-twice":         func() { ch := make(chan int); close(ch); close(ch) },
+	"rt-neg-make":            func() { _ = make([]int, minusOne) },
+	"rt-slice-range":         func() { _ = emptySlice[zero+2 : 1] },
+	"panic-in-defer":         func() { defer func() { panic("second panic") }(); panic("first panic") },
+	"repanic":                func() { defer func() { r := recover(); panic(fmt.Sprint("re-panic of ", r)) }(); panic("original") },
 }
 var pvKinds = lib.SortedKeys(triggers)
 
@@ -251,10 +343,10 @@ func fails(n *node) bool {
 }
 
 // candidate results of a member: identified errors it may hand over unchanged, and panic texts it may be recovered with
-func candidates(n *node, ids map[*idErr]bool, texts map[string]bool) {
+func candidates(n *node, ids map[int]bool, texts map[string]bool) {
 	switch n.Kind {
 	case "err":
-		ids[n.err] = true
+		ids[modelID(n.ErrKind, n.ErrID)] = true
 	case "panic":
 		texts[textOf(n.PV)] = true
 	case "nest":
@@ -266,17 +358,22 @@ func candidates(n *node, ids map[*idErr]bool, texts map[string]bool) {
 		case "panicifinner":
 			texts[innerFailed] = true
 		case "err":
-			ids[n.err] = true
+			ids[modelID(n.ErrKind, n.ErrID)] = true
 		case "panic":
 			texts[textOf(n.PV)] = true
 		}
 	}
 }
 
-func prepare(n *node, reg map[*idErr]int, count func(string)) {
+func prepare(n *node, reg *[]regEntry, count func(string)) {
 	if n.Kind == "err" || (n.Kind == "nest" && n.Post == "err") {
-		n.err = &idErr{n.ErrID}
-		reg[n.err] = n.ErrID
+		n.err = makeErr(n.ErrKind, n.ErrID)
+		*reg = append(*reg, regEntry{n.err, modelID(n.ErrKind, n.ErrID)})
+		k := n.ErrKind
+		if k == "" {
+			k = "pointer"
+		}
+		count("returned_error_type_" + k)
 	}
 	if n.Kind == "nest" {
 		count("member_nested_group/post_" + n.Post)
@@ -298,7 +395,7 @@ func coqOrder(o []int) string { return lib.CoqListOf(o, lib.CoqNat) + "%nat" }
 func coqNode(n *node) string {
 	optID := func(k string) string {
 		if k == "err" {
-			return fmt.Sprintf("(Some %d)", n.ErrID)
+			return fmt.Sprintf("(Some %d)", modelID(n.ErrKind, n.ErrID))
 		}
 		return "None"
 	}
@@ -349,9 +446,9 @@ func run(c *lib.Ctx, cs caseT) {
 		c.PredChecked()
 		return
 	}
-	reg := map[*idErr]int{}
+	reg := []regEntry{}
 	for _, n := range cs.Children {
-		prepare(n, reg, c.Count)
+		prepare(n, &reg, c.Count)
 	}
 	top := newGrp(!cs.Free, cs.Limit)
 	for i, n := range cs.Children {
@@ -361,14 +458,19 @@ func run(c *lib.Ctx, cs caseT) {
 
 	// classify the observation
 	obs, kind := "ObsOther", "other"
-	var gotID *idErr
+	gotID := 0
 	msg := ""
+	if err != nil {
+		for _, e := range reg {
+			if sameErr(err, e.err) {
+				gotID = e.id
+			}
+		}
+	}
 	if err == nil {
 		obs, kind = "ObsNil", "nil"
-	} else if ie, ok := err.(*idErr); ok {
-		if id, ok := reg[ie]; ok {
-			obs, kind, gotID = fmt.Sprintf("(ObsErr %d)", id), "same-error", ie
-		}
+	} else if gotID != 0 {
+		obs, kind = fmt.Sprintf("(ObsErr %d)", gotID), "same-error"
 	} else {
 		msg = err.Error()
 		if idx := strings.Index(msg, "\ngoroutine "); idx >= 0 && strings.HasPrefix(msg, "panic recovered: ") {
@@ -398,7 +500,7 @@ func run(c *lib.Ctx, cs caseT) {
 
 	// the property on the implementation alone (reaching this line at all = no panic escaped)
 	c.PredChecked()
-	ids, texts := map[*idErr]bool{}, map[string]bool{}
+	ids, texts := map[int]bool{}, map[string]bool{}
 	pool := cs.Children
 	if w := int(top.won.Load()); !cs.Free && w >= 0 {
 		pool = cs.Children[w : w+1] // the member that completed first among the failing ones decides
@@ -412,10 +514,12 @@ func run(c *lib.Ctx, cs caseT) {
 	case err != nil && !anyFail:
 		c.PredFail(id, "wait-error-although-all-members-nil", fmt.Sprintf("Wait() = %.200q although every member ended with nil", err.Error()), cs)
 	case err == nil:
-	case gotID != nil:
+	case gotID != 0:
 		if !ids[gotID] {
 			c.PredFail(id, "wait-returns-error-of-a-member-that-cannot-be-first", fmt.Sprintf("Wait() = %v, not an error of the member that completed first", err), cs)
 		}
+	case kind == "recovered-panic" && len(texts) == 0:
+		c.PredFail(id, "returned-error-not-propagated-unchanged", fmt.Sprintf("the deciding member RETURNED an error, but Wait() = %.200q (%T): not that error value", msg, err), cs)
 	case kind == "recovered-panic":
 		ok := false
 		for t := range texts {
@@ -427,7 +531,7 @@ func run(c *lib.Ctx, cs caseT) {
 			c.PredFail(id, "panic-message-lacks-panic-value", fmt.Sprintf("Wait() = %.300q does not carry the %%v text of a panic value of the deciding member %q", msg, lib.SortedKeys(texts)), cs)
 		}
 	default:
-		if _, isID := err.(*idErr); isID || len(ids) > 0 && len(texts) == 0 {
+		if len(ids) > 0 && len(texts) == 0 {
 			c.PredFail(id, "returned-error-not-propagated-unchanged", fmt.Sprintf("Wait() = %.200q (%T) is not the identical error value a member returned", err.Error(), err), cs)
 		} else {
 			c.PredFail(id, "panic-not-converted-to-panic-recovered-error", fmt.Sprintf("Wait() = %.200q", err.Error()), cs)
@@ -459,7 +563,7 @@ func genNode(r *lib.RNG, depth int) *node {
 		return &node{Kind: "ret"}
 	case x < 45:
 		nextID++
-		return &node{Kind: "err", ErrID: nextID}
+		return &node{Kind: "err", ErrID: nextID, ErrKind: lib.Pick(r, errKinds)}
 	case x < 75 || depth >= 3:
 		return &node{Kind: "panic", PV: lib.Pick(r, pvKinds)}
 	case x < 80:
@@ -514,7 +618,7 @@ func body(c *lib.Ctx) {
 	c.CaseType = "C48.case"
 	c.MismatchFn = "C48.mismatches"
 	c.SetRule(fmt.Sprintf("groups of 1-64 functions started with the real errguard.Go on errgroup groups (with and without SetLimit); every "+
-		"function returns nil, returns a unique error, panics with one of %d kinds of values (nil, errors, strings, numbers, structs, "+
+		"function returns nil, returns an error (a unique pointer, or a value-typed error: struct, string type, syscall.Errno, context.DeadlineExceeded / ctx.Err() / Canceled, an uncomparable struct, a wrapped or joined error), panics with one of %d kinds of values (nil, errors, typed-nil pointer errors / Stringers, strings, numbers, structs, "+
 		"pointers, slices, maps, Stringers, values whose String/Error method panics, runtime.Errors from nil dereference / index / "+
 		"divide / nil map / type assertion / close / make, panics during panicking), calls runtime.Goexit, or runs a nested guarded "+
 		"group (depth <= 3) and returns its result / panics on it / ignores it. 4/5 of the groups use errgroup.WithContext so that "+
@@ -535,6 +639,12 @@ func body(c *lib.Ctx) {
 		corpus = append(corpus, caseT{Children: []*node{{Kind: "panic", PV: k}}})
 		corpus = append(corpus, caseT{Children: []*node{{Kind: "ret"}, {Kind: "panic", PV: k}, {Kind: "goexit"}}})
 		corpus = append(corpus, caseT{Log: k, Children: []*node{}})
+	}
+	for i, k := range errKinds[1:] {
+		corpus = append(corpus, caseT{Children: []*node{{Kind: "err", ErrID: 1, ErrKind: k}}})
+		corpus = append(corpus, caseT{Children: []*node{{Kind: "ret"}, {Kind: "err", ErrID: 2 + i, ErrKind: k}, {Kind: "goexit"}}})
+		corpus = append(corpus, caseT{Children: []*node{{Kind: "nest", Post: "inner", Children: []*node{{Kind: "err", ErrID: 3, ErrKind: k}, {Kind: "ret"}}}}})
+		corpus = append(corpus, caseT{Free: true, Children: []*node{{Kind: "err", ErrID: 4, ErrKind: k}}})
 	}
 	corpus = append(corpus,
 		caseT{Children: []*node{{Kind: "ret"}, {Kind: "goexit"}, {Kind: "ret"}}},
